@@ -35,6 +35,8 @@ pub struct VarOut {
     /// raw-log length before / after each line of the variant (usize::MAX = line skipped)
     pub raw_before: Vec<usize>,
     pub raw_after: Vec<usize>,
+    /// the store was powered off when the line started
+    pub off_before: Vec<bool>,
     pub nontrivial: bool,
     pub compared: u64,
     pub hits: Vec<String>,
@@ -43,7 +45,11 @@ pub struct VarOut {
 
 /// runs one variant on the real code (+ oracle) and, when given, on the Lean driver
 pub async fn run_variant(backend: Backend, lines: &[Line], mut model: Option<&mut ModelProc>) -> Result<VarOut, String> {
-    let mut real = Real::setup(backend).await?;
+    let unmodelled = lines.iter().any(|l| l.unmodelled());
+    if unmodelled {
+        model = None;
+    }
+    let mut real = Real::setup(backend, unmodelled).await?;
     let mut o = VarOut::default();
     let mut oracle = Oracle::default();
     if let Some(m) = model.as_deref_mut() {
@@ -59,11 +65,13 @@ pub async fn run_variant(backend: Backend, lines: &[Line], mut model: Option<&mu
             // the process died with the power: nothing more runs until the reboot
             o.raw_before.push(usize::MAX);
             o.raw_after.push(usize::MAX);
+            o.off_before.push(true);
             o.hits.push("skipped-after-power-loss".into());
             continue;
         }
         let fault_possible = real.ctl.fault_pending() || real.off();
         o.raw_before.push(real.ctl.log_len());
+        o.off_before.push(real.off());
         let out = real.exec(line).await;
         let fault_possible = fault_possible || real.off();
         o.raw_after.push(real.ctl.log_len());
@@ -85,8 +93,21 @@ pub async fn run_variant(backend: Backend, lines: &[Line], mut model: Option<&mu
                 o.disagreements.push((format!("backend mutations of `{}`", line.show()), ml, real_log.clone()));
             }
         }
+        if real.off() && !*o.off_before.last().unwrap() && !out.starts_with("err") {
+            // the power failed on a mutation the model abstracts away and the code ignores
+            // (obsolete-object delete): tell the model the power is off
+            if let Some(m) = model.as_deref_mut() {
+                m.ask("poweroff");
+            }
+            o.hits.push("power-loss-on-ignored-cleanup".into());
+        }
         o.outs.push((line.show(), out.clone()));
-        if matches!(line, Line::Reopen(_)) && out == "ok" {
+        // through the wrapper backends a read may itself write (lazy cleanup of superseded
+        // objects), so a still-armed fault could fire inside the observation: observe later
+        // (and a crash may fire on a best-effort cleanup delete the code rightly ignores: power is
+        // off although the call succeeded — nothing can be observed until the next reboot)
+        let observable = !real.off() && (backend == Backend::Mem || !real.ctl.fault_pending());
+        if matches!(line, Line::Reopen(_)) && out == "ok" && observable {
             // observe the recovered collection
             let bound = oracle.probe_bound();
             let ids = real.ids().unwrap_or_default();
@@ -94,7 +115,30 @@ pub async fn run_variant(backend: Backend, lines: &[Line], mut model: Option<&mu
             for id in 1..=bound {
                 gets.insert(id, real.get(id).await);
             }
+            let mut postings = BTreeMap::new();
+            for (ix, nk) in [(0usize, KEYS_A), (1usize, WORDS.len() as u64)] {
+                for k in 0..nk {
+                    postings.insert((ix, k), real.ix(ix, k));
+                }
+            }
+            let mut extra = BTreeMap::new();
+            if unmodelled {
+                // the index the open callback may have created on `n`
+                for ans in gets.values() {
+                    if let Some(b) = ans.strip_prefix("ok doc ").and_then(|r| r.split(' ').next()).and_then(|b| b.parse::<u64>().ok()) {
+                        extra.insert((2usize, b), real.ix(2, b));
+                    }
+                }
+                extra.insert((2usize, 424242), real.ix(2, 424242));
+            }
             if let Some(m) = model.as_deref_mut() {
+                if let Some(want) = real.state().await {
+                    let got = m.ask("state");
+                    o.compared += 1;
+                    if got != want {
+                        o.disagreements.push(("durable state after reopen (document objects, intent objects, checkpoint, max_document_id)".into(), got, want));
+                    }
+                }
                 let want = format!("ids {}", if ids.is_empty() { "-".to_string() } else { join(&ids, ",") });
                 let got = m.ask("ids");
                 o.compared += 1;
@@ -108,17 +152,16 @@ pub async fn run_variant(backend: Backend, lines: &[Line], mut model: Option<&mu
                         o.disagreements.push((format!("get {id} after reopen"), got, ans.clone()));
                     }
                 }
-                for (ix, nk) in [(0usize, KEYS_A), (1usize, WORDS.len() as u64)] {
-                    for k in 0..nk {
-                        let want = real.ix(ix, k);
-                        let got = m.ask(&format!("ix {ix} {k}"));
-                        o.compared += 1;
-                        if got != want {
-                            o.disagreements.push((format!("index {ix} key {k} after reopen"), got, want));
-                        }
+                for ((ix, k), want) in &postings {
+                    let got = m.ask(&format!("ix {ix} {k}"));
+                    o.compared += 1;
+                    if &got != want {
+                        o.disagreements.push((format!("index {ix} key {k} after reopen"), got, want.clone()));
                     }
                 }
             }
+            oracle.check_indexes(&gets, &postings);
+            oracle.check_indexes(&gets, &extra);
             if !ids.is_empty() && acked_mutation {
                 o.nontrivial = true;
             }
@@ -126,6 +169,13 @@ pub async fn run_variant(backend: Backend, lines: &[Line], mut model: Option<&mu
         }
     }
     o.raw = real.raw_log();
+    for _ in 0..real.same_process_reopens {
+        o.hits.push("reopen-in-same-process-of-poisoned-or-closed-handle".into());
+    }
+    if !lines.iter().any(|l| matches!(l, Line::Arm(..))) && real.ctl.mutation_count() as usize != o.raw.len() {
+        // cut positions are derived from the landed-mutation log of the clean run: every attempt must have landed
+        o.hits.push("clean-run-attempt-did-not-land".into());
+    }
     o.failures = oracle.failures;
     Ok(o)
 }
@@ -285,8 +335,8 @@ fn variants(rt: &tokio::runtime::Runtime, base: &[Line], rng: &mut Rng, full: bo
 /// nested variants of one crash variant: a second fault inside the recovery
 fn nested(base_variant: &[Line], first: &VarOut, rng: &mut Rng, full: bool) -> Vec<(String, Vec<Line>)> {
     let mut out = vec![];
-    // the first reopen of the variant that succeeded and wrote something
-    let Some(ri) = base_variant.iter().position(|l| matches!(l, Line::Reopen(_))) else { return out };
+    // the reopen that recovered from the power loss
+    let Some(ri) = (0..base_variant.len()).find(|i| matches!(base_variant[*i], Line::Reopen(_)) && first.off_before.get(*i) == Some(&true) && first.raw_before[*i] != usize::MAX) else { return out };
     if first.raw_before.get(ri).is_none_or(|x| *x == usize::MAX) {
         return out;
     }
@@ -394,10 +444,11 @@ impl Worker {
 /// crash inside database / collection creation: reopens, possibly after the documented
 /// delete-and-recreate, and accepts writes (oracle only; the model starts after creation)
 async fn create_crash(backend: Backend, k: u64) -> Result<(bool, Vec<String>), String> {
-    let mut real = Real::blank(backend);
+    let mut real = Real::blank(backend, false);
     real.ctl.crash_after(k);
     let first = real.exec(&Line::Reopen(0)).await;
     let crashed = real.off();
+    real.ctl.disarm();
     let outcome = real.open_after_create_crash().await;
     let mut problems = vec![];
     let recreated = match outcome {
@@ -425,7 +476,7 @@ fn main() {
         "C01",
         &args,
         "case = one variant (clean run | crash after the k-th backend mutation | that plus a second fault inside the recovery | one call failing / landing-but-reporting-failure) \
-         of a generated base workload (4..16 ops over add/update/remove/flush/close/reopen, B-tree + BM25 indexed fields), always followed by reopen, add, flush, reopen; \
+         of a generated base workload (4..16 ops over add/update/remove/save_extension/flush/close/reopen, B-tree + BM25 indexed fields; `ext` bases add compaction and an index created/removed in the open callback, real code + oracle only), always followed by reopen, add, flush, reopen; \
          distinct = distinct op list per backend; non-trivial = at least one add/update/remove was acknowledged and a reopen succeeded with a non-empty id set",
     );
     let thorough = args.thorough() || args.focus.is_some();
@@ -463,8 +514,8 @@ fn main() {
         }
         drop(w);
         // ---- generated base workloads, sharded over threads ------------------------------
-        let n_bases = args.budget(140, 2500);
-        let n_full = args.budget(4, 60); // bases expanded exhaustively (every cut, every nested cut, every single fault)
+        let n_bases = args.budget(140, 6000);
+        let n_full = args.budget(4, 120); // bases expanded exhaustively (every cut, every nested cut, every single fault)
         let next = AtomicU64::new(0);
         let threads = std::thread::available_parallelism().map(|n| n.get()).unwrap_or(4).clamp(2, 12);
         std::thread::scope(|s| {
@@ -480,6 +531,14 @@ fn main() {
                         let full = i < n_full;
                         let base = gen_::gen_base(&mut rng, if full { 7 } else if thorough { 16 } else { 12 });
                         w.base(Backend::Mem, &format!("gen{i}"), &base, &mut rng, full, &sink);
+                        // operations the model does not have (compaction, index created / removed in
+                        // the open callback), small index buckets: implementation + oracle
+                        if i % 5 == 2 || (thorough && i % 2 == 0) {
+                            let mut r2 = Rng::for_case(args.seed ^ 0xE87, i);
+                            let ext = gen_::gen_base_ext(&mut r2, 8);
+                            let be = [Backend::Mem, Backend::Meta, Backend::Enc][(i % 3) as usize];
+                            w.base(be, &format!("ext{i}"), &ext, &mut r2, false, &sink);
+                        }
                         // the other two backends: implementation + oracle (the wrappers' own write
                         // protocol is C07/C08's model, not this one's)
                         if i % 7 == 3 || (thorough && i % 3 == 0) {
@@ -521,7 +580,7 @@ fn main() {
 
     let results = sink.into_inner().unwrap();
     let mut by_name: Vec<_> = results.into_iter().collect();
-    by_name.sort_by(|a, b| (a.0.name(), &a.1.name).cmp(&(b.0.name(), &b.1.name)));
+    by_name.sort_by(|a, b| (a.0 != Backend::Mem, a.0.name(), &a.1.name).cmp(&(b.0 != Backend::Mem, b.0.name(), &b.1.name)));
     let mut m = Merger { rep: &mut rep };
     for (be, r, small) in by_name {
         m.add(be, r, small);
